@@ -348,3 +348,52 @@ def c12d(ctx):
                 ctx.check(ok, 'who-may-remove:%s' % f.short, '%s is called from the clean-up path / a cache backend delegating to its '
                           'sibling' % simple_name(x), f, x,
                           fail='%s is called from %s: tiles are removed outside the clean-up path' % (simple_name(x), f.short))
+
+
+@rule('C12.e', floor=3)
+def c12e(ctx):
+    """one time convention for the stored modification time: every SQL statement that converts a bound epoch timestamp for the
+    last_modified column uses the same datetime(?, ...) modifiers (the store writes local time, so the removal threshold and the
+    TTL tests must be local time too), and the reader converts the column back with the matching function (time.mktime = local)"""
+    for rel in ('mapproxy/cache/mbtiles.py', 'mapproxy/cache/geopackage.py'):
+        m = ctx.repo.mod(rel)
+        bound, now = {}, {}
+        for node in ast.walk(m.tree):
+            if isinstance(node, ast.Constant) and isinstance(node.value, str) and 'datetime(' in node.value:
+                for mo in re.finditer(r"datetime\(\s*(\?|'now')\s*((?:,\s*'[^']*'\s*)*)\)", node.value):
+                    mods = tuple(x.strip().strip("'") for x in mo.group(2).split(',') if x.strip())
+                    mods = tuple(x for x in mods if not x.startswith('%') and 'seconds' not in x)
+                    (bound if mo.group(1) == '?' else now).setdefault(mods, []).append(node)
+        if not bound and not now:
+            continue
+        conv = {('localtime' in k) for k in list(bound) + list(now)}
+        where = (rel, min(n.lineno for ns in list(bound.values()) + list(now.values()) for n in ns))
+        ctx.check(len(conv) == 1, '%s:one-time-convention' % rel.split('/')[-1],
+                  'all datetime(...) expressions compared with / written to last_modified use one convention (%s)' % (
+                      'local time' if True in conv else 'UTC'), where,
+                  fail='the SQL statements mix local-time and UTC conversions of the modification time (%s): on a host that is not on UTC the '
+                       'removal threshold is off by the UTC offset' % sorted(set(list(bound) + list(now))))
+        ub = {k for k in bound}
+        ctx.check(len(ub) <= 1, '%s:bound-timestamp-modifiers' % rel.split('/')[-1],
+                  'every bound epoch value is converted with the same modifiers %s' % (sorted(ub)[:1],), where,
+                  fail='bound epoch values are converted with different modifiers: %s' % sorted(ub))
+    rd = ctx.fn('mapproxy/cache/mbtiles.py:sqlite_datetime_to_timestamp')
+    local = any(is_call(x, 'time.mktime', 'mktime') for x in rd.walk())
+    utc = any(is_call(x, 'calendar.timegm', 'timegm') for x in rd.walk())
+    mb = ctx.repo.mod('mapproxy/cache/mbtiles.py')
+    writes_local = any(isinstance(n, ast.Constant) and isinstance(n.value, str) and 'INSERT' in n.value and "'localtime'" in n.value for n in ast.walk(mb.tree))
+    ctx.check((local and not utc) == writes_local, 'sqlite_datetime_to_timestamp:matches-store', 'the stored local-time string is read back with time.mktime (local time)', rd,
+              fail='the column is written in one time convention and read back in the other')
+
+
+@rule('C12.f', floor=1)
+def c12f(ctx):
+    """coverage-limited cleanup walks the cache with the seeding walker: what it removes outside the coverage is decided by the
+    walker's per-sub-tile coverage test (shared rules C11.h and C11.g)"""
+    from ..engine import run_property
+    sub = run_property(ctx.repo, 'C11', ctx.tier, only={'C11.h', 'C11.g'})
+    for er in sub.errors:
+        raise Undecided('shared rule %s: %s' % er)
+    for o in sub.obs:
+        (ctx.ok if o.status == 'ok' else ctx.bad)('%s:%s' % (o.rule, o.construct), o.msg, o.where)
+    ctx.stats['functions'] |= sub.stats['functions']
